@@ -52,6 +52,9 @@ ARCH = {
     # lines before the identification string (a login notice), on every connection
     'greeter': _p(banner='SSH-2.0-OpenSSH_8.9p1 Ubuntu-3ubuntu0.6', pre=['Welcome to the gateway.', 'Authorised use only.'], kex=['curve25519-sha256', 'kex-strict-s-v00@openssh.com'],
                   key=['ssh-ed25519', 'rsa-sha2-512'], keys={'ssh-ed25519': {}, 'ssh-rsa': {'bits': 3072}}),
+    # a tarpit: a finite greeting, one line at a time, each line just inside the reader's timeout (pre_gap_us is set per case from -t)
+    'tarpit': _p(banner='SSH-2.0-OpenSSH_8.9p1 Ubuntu-3ubuntu0.6', pre=['%08x tarpit' % (i * 2654435761 % 2 ** 32) for i in range(25)], kex=['curve25519-sha256', 'kex-strict-s-v00@openssh.com'],
+                 key=['ssh-ed25519'], keys={'ssh-ed25519': {}}),
     'ssh1': {'banner': 'SSH-1.5-OpenSSH_3.4', 'ssh2': False, 'ssh1': {'cmask': 0x4c, 'amask': 0x3c, 'hkey_bits': 1024, 'skey_bits': 768}},
     # answers every identification line, SSH-2 or SSH-1, with the version-mismatch notice and hangs up (a gateway / tarpit)
     'mismatch_only': {'banner': 'SSH-1.5-LegacyGate_1.0', 'ssh2': False, 'ssh1': None},
@@ -65,6 +68,8 @@ _transcripts = {}
 
 def base_plan(arch, opts, timeout, net, faults, seed, knobs=None, keep=False):
     prof = copy.deepcopy(ARCH[arch])
+    if arch == 'tarpit':
+        prof['pre_gap_us'] = int(0.8 * (timeout or 5) * 1_000_000)
     if arch == 'client':
         argv = list(opts) + ['-c', '-p', '2222'] + (['-t', str(timeout)] if timeout else ['-t', '5'])
         plan = gen.client_plan(seed, argv, prof, port=2222, net=net, knobs=knobs, faults=faults)
@@ -167,8 +172,17 @@ def all_sites(arch, systematic, rng):
 
 
 def cases(seed, tier):
-    archs = sorted(ARCH)
+    archs = sorted(a for a in ARCH if a != 'tarpit')
     idx = 0
+    # peers that pace what they send so that no single read times out: a finite greeting of 25 lines, one per 0.8 x timeout (then the
+    # banner, or silence), and a KEXINIT delivered 64 bytes at a time at the same pace; the time such a peer can hold the tool is part of
+    # the bound ("proportional to the configured timeout times the number of connections"), so pacing is not added to the allowance
+    for T in (1, 2, 5):
+        yield {'arch': 'tarpit', 'faults': [], 'opts': ['-n'], 'timeout': T, 'net': {'rtt_us': 200, 'seg': {'mode': 'msg'}}, 'pseed': 1, 'paced': True}
+        yield {'arch': 'tarpit', 'faults': [{'conn': 0, 'msg': 'banner', 'kind': 'truncate_stall', 'off': 0}], 'opts': ['-n'], 'timeout': T, 'net': {'rtt_us': 200, 'seg': {'mode': 'msg'}},
+               'pseed': 1, 'paced': True}
+        yield {'arch': 'ed25519', 'faults': [], 'opts': ['-n'], 'timeout': T, 'net': {'rtt_us': 200, 'gap_us': int(0.8 * T * 1_000_000), 'seg': {'mode': 'mss', 'mss': 64, 'banner_atomic': True}},
+               'pseed': 1, 'paced': True}
     if tier == 'thorough':
         for arch in archs:
             rng = gen.case_rng(seed, ID, arch, 'sweep')
@@ -325,8 +339,12 @@ def judge(case, rec, out):
                         'arch=%s faults=%r\nstdout tail:\n%s\nstderr tail:\n%s' % (arch, case['faults'], rec['stdout'][-1500:], rec['stderr'][-600:])))
         return
     # (1) bounded virtual time
-    bound = 4 * T * 1_000_000 * (rec['nconns'] + len([c for c in rec['connects'] if c[3] != 'ok']) + 1) + 2_000_000 + rec.get('net_time_us', 0)
-    if rec['vtime_us'] > bound:
+    bound = 4 * T * 1_000_000 * (rec['nconns'] + len([c for c in rec['connects'] if c[3] != 'ok']) + 1) + 2_000_000 + (rec.get('net_time_us', 0) if not case.get('paced') else 0)
+    if rec['vtime_us'] > bound and case.get('paced'):
+        what = 'KEXINIT in 64-byte pieces' if arch != 'tarpit' else ('greeting lines then silence' if case['faults'] else 'greeting lines')
+        out.append(viol('C09 paced peer (%s): held the tool longer than the timeout bound' % what, 'every piece arrives 0.8 x timeout after the one before, so no single read times out\n'
+                        'vtime=%.1fs bound=%.1fs (4 x timeout x (connections + 1) + 2 s) conns=%d timeout=%ss' % (rec['vtime_us'] / 1e6, bound / 1e6, rec['nconns'], T)))
+    elif rec['vtime_us'] > bound:
         out.append(viol('C09 %s: took longer than the timeout bound (%s)' % (arch, fk), 'vtime=%.1fs bound=%.1fs conns=%d faults=%r' % (
             rec['vtime_us'] / 1e6, bound / 1e6, rec['nconns'], case['faults'])))
     # (3) report iff the first handshake was well-formed
@@ -363,7 +381,12 @@ def judge(case, rec, out):
     if isjson:
         return
     tr = report.TextReport(rec['stdout'], verbose='-v' in case['opts'])
-    if verdict == 'well':
+    if verdict == 'well' and case.get('paced') and rec['status'] == 1:
+        # the bytes were well-formed but paced so slowly that the tool gave up on the peer: that is a stall, answered as a stall
+        # has to be - status 1 and no algorithm report
+        if any(tr.names(cat) for cat in ('kex', 'key', 'enc', 'mac')):
+            out.append(viol('C09 %s: status 1 with an algorithm report' % arch, rec['stdout'][-800:]))
+    elif verdict == 'well':
         if rec['status'] not in (0, 2, 3):
             last = [ln for ln in report.strip_ansi(rec['stdout']).strip().split('\n') if ln.strip()][-1:] or ['']
             out.append(viol('C09 well-formed first handshake but status %s: %s' % (rec['status'], last[0][:80]), 'arch=%s faults=%r\nstdout:\n%s' % (arch, case['faults'], rec['stdout'][-1500:])))
@@ -390,7 +413,7 @@ def run_case(case, ctx):
             f['us'] = int(f['frac'] * (case['timeout'] or 5) * 1_000_000)   # always inside one read timeout (two faults: < 2 x 0.45)
     plan = base_plan(case['arch'], case['opts'], case['timeout'], case['net'], faults, case.get('pseed', 1), case.get('knobs'))
     plan['knobs'] = dict(plan.get('knobs') or {})
-    plan['knobs'].setdefault('max_vtime_s', 1200)
+    plan['knobs'].setdefault('max_vtime_s', 1200 if not case.get('paced') else 6000)
     plan['knobs'].setdefault('max_events', 400000)
     rec = ctx.run(plan, real_timeout=20.0 if case.get('stress') else 60.0, hang_is_outcome=True)
     if rec.get('harness_error'):
